@@ -30,7 +30,7 @@ Expected(rec) == Q!Hits(rec.q, rec.corpus)
 \* the observed deviations an engine / request variant is known to be prone to
 \* (see module Query, "mode"); classification only
 ModeOf(run) ==
-    IF run.eng = "scorch"
+    IF run.eng \in {"scorch", "scorch-merged"}
     THEN [transp |-> TRUE, k1 |-> (run.score = "none" /\ run.loc = 0), k1f |-> TRUE, lmf |-> FALSE]
     ELSE [transp |-> FALSE, k1 |-> FALSE, k1f |-> FALSE, lmf |-> TRUE]
 
